@@ -54,7 +54,7 @@ type cbRec struct {
 
 func TestC17_ReadAndWriteInFlight(t *testing.T) {
 	rec := evid.For("C17")
-	rec.SetRule("rapid schedules on a real handshake against a raw harness server over the real AsyncAdapter (in a quarter of the cases preceded by a session on the same stream that is torn down with 1..3 writes and possibly a read in flight, then re-handshaken): peer sends data messages (1-2 fragments), pings, optionally a close; the application starts AsyncNextFrame/AsyncNextMessage (one read outstanding), AsyncWrite/AsyncWriteFrame/AsyncFlush (up to three application writes outstanding), AsyncClose, in generated positions relative to PollOne calls, and completion callbacks that themselves re-arm the read and/or start the next write (echo-style, generated per callback), in particular an application write issued while the read path's automatic Pong flush has not completed; peer drains; the session ends (epilogue, with a read and/or a write in flight) with nothing, AsyncClose followed by the peer's reply, the peer's Close followed by AsyncFlush (plus a late AsyncWrite that must be refused), or a message larger than the buffer handed to AsyncNextMessage arriving while an application write is in flight; oracle: exactly one Close on the wire and nothing after it, every user callback is invoked exactly once (after everything was made completable and readiness confirmed, within 40 PollOne calls), reads deliver the peer's frames/messages in order, the server-side byte stream parses completely into the expected frames in submission order (pongs echo their ping), IO.Pending() returns to 0 when nothing is outstanding; non-trivial = an application write issued while a control-reply flush was in flight, or a read and a write callback in the same PollOne; distinct = hash of the schedule")
+	rec.SetRule("rapid schedules on a real handshake against a raw harness server over the real AsyncAdapter (in a quarter of the cases preceded by a session on the same stream that is torn down with 1..3 writes and possibly a read in flight, then re-handshaken): peer sends data messages (1-2 fragments), pings, optionally a close; the application starts AsyncNextFrame/AsyncNextMessage (one read outstanding), AsyncWrite/AsyncWriteFrame/AsyncFlush (up to three application writes outstanding), AsyncClose, in generated positions relative to PollOne calls, and completion callbacks that themselves re-arm the read and/or start the next write (echo-style, generated per callback), in particular an application write issued while the read path's automatic Pong flush has not completed; peer drains; the session ends (epilogue, with a read and/or a write in flight) with nothing, AsyncClose followed by the peer's reply, the peer's Close followed by AsyncFlush (plus a late AsyncWrite that must be refused), the peer's Close already received when the application submits 1..3 writes and its own AsyncClose in one go (crossing closes: everything submitted must still reach the wire, then our Close), or a message larger than the buffer handed to AsyncNextMessage arriving while an application write is in flight; oracle: exactly one Close on the wire and nothing after it, every user callback is invoked exactly once (after everything was made completable and readiness confirmed, within 40 PollOne calls), reads deliver the peer's frames/messages in order, the server-side byte stream parses completely into the expected frames in submission order (pongs echo their ping), IO.Pending() returns to 0 when nothing is outstanding; non-trivial = an application write issued while a control-reply flush was in flight, or a read and a write callback in the same PollOne; distinct = hash of the schedule")
 	rec.Assume("messages <= 2 KiB so that the adapter's blocking net.Conn.Write always fits the socket buffer; one read outstanding at a time, up to three application writes (they queue behind whatever flush is in flight; the automatic control replies of the read path are the overlap under test)")
 	overlapKnown := known.Listed("C17", "overlapping-flush-drops-continuation")
 	vt.CheckSteps(t, 200, 25, func(rt *rapid.T) {
@@ -485,7 +485,7 @@ func TestC17_ReadAndWriteInFlight(t *testing.T) {
 		// --- epilogue: how the session ends, with a read and/or a write in flight at that moment
 		ending := "none"
 		if !readEOF && !closedByUs && !peerClosed && s.State() == websocket.StateActive {
-			ending = rapid.SampledFrom([]string{"none", "asyncClose", "asyncClose", "peerClose", "peerClose", "oversized", "oversized"}).Draw(rt, "ending")
+			ending = rapid.SampledFrom([]string{"none", "asyncClose", "asyncClose", "peerClose", "peerClose", "oversized", "oversized", "crossingClose", "crossingClose"}).Draw(rt, "ending")
 		}
 		pollUntil := func(what string, done func() bool) {
 			for i := 0; i < 60 && !done(); i++ {
@@ -545,7 +545,7 @@ func TestC17_ReadAndWriteInFlight(t *testing.T) {
 			if withRead && readCb == nil {
 				startRead(false) // stays in flight: nothing inbound
 			}
-			if withWrite && ending != "none" && ending != "oversized" {
+			if withWrite && ending != "none" && ending != "oversized" && ending != "crossingClose" {
 				appWrite("AsyncWrite")
 			}
 			switch ending {
@@ -630,6 +630,30 @@ func TestC17_ReadAndWriteInFlight(t *testing.T) {
 				// the peer answers; the read (in flight or started now) sees the Close exactly once
 				peerSend(rfc6455.Frame{Fin: true, Opcode: rfc6455.OpClose, Payload: rfc6455.ClosePayload(1000, "bye"), LenBytes: -1})
 				readUntilClose("peer's Close reply")
+			case "crossingClose":
+				// Both sides close at the same moment: the peer's own Close is already in the client's receive buffer when
+				// the application writes 1..3 messages and starts its closing handshake without polling in between, so
+				// the first message is in flight on the transport and the rest, with our Close, is queued behind it. The
+				// peer's Close is then read while those are still queued. Everything submitted before our Close must
+				// still reach the wire, followed by our Close, once.
+				if readCb == nil && withRead {
+					startRead(false)
+				}
+				peerSend(rfc6455.Frame{Fin: true, Opcode: rfc6455.OpClose, Payload: rfc6455.ClosePayload(1001, "going"), LenBytes: -1})
+				quiesce = true // the write callbacks do not start further writes: the stream is closing
+				for k, nw := 0, rapid.IntRange(1, 3).Draw(rt, "crossingWrites"); k < nw; k++ {
+					appWrite("AsyncWrite")
+				}
+				cr := &cbRec{what: fmt.Sprintf("close#%d", len(cbs))}
+				cbs = append(cbs, cr)
+				log("AsyncClose#%d", len(cbs)-1)
+				s.AsyncClose(websocket.CloseNormal, "bye", func(err error) { noteCb(cr, err); log("cb:%s(%v)", cr.what, err) })
+				closedByUs = true
+				expWire = append(expWire, expOut{op: rfc6455.OpClose, payload: rfc6455.ClosePayload(1000, "bye"), what: "local close"})
+				readUntilClose("the peer's Close crossing ours")
+				if cr.err != nil {
+					fail("AsyncClose on a healthy connection completed with %v", cr.err)
+				}
 			case "peerClose":
 				peerSend(rfc6455.Frame{Fin: true, Opcode: rfc6455.OpClose, Payload: rfc6455.ClosePayload(1001, "going"), LenBytes: -1})
 				readUntilClose("peer's Close")
